@@ -152,9 +152,9 @@ theorem read_range {α : Type} (blobs : List (List α)) (off n : Nat) :
     readAt (mkFile blobs) off n = .ok ((blobs.flatten.drop off).take n) := by
   have hmap : (mkFile blobs).map (·.1) = blobs.map List.length := by
     simp [mkFile, List.map_map, Function.comp_def]
-  have hmap2 : ∀ s, ((mkFile blobs).drop s).map (·.2) = (blobs.drop s).map some := by
+  have hmap2 : ∀ s, ((mkFile blobs).map (·.2)).drop s = (blobs.drop s).map some := by
     intro s; simp [mkFile, List.map_drop, List.map_map, Function.comp_def]
-  unfold readAt
+  unfold readAt readWith
   simp only [hmap, hmap2]
   have hlast : (cumsize (blobs.map List.length)).getLastD 0 = blobs.flatten.length := by
     simp only [cumsize, cumsizeFrom_getLastD, sum_map_length, Nat.zero_add]
@@ -281,6 +281,130 @@ theorem negative_offset_past_eof {α : Type} (blobs : List (List α)) (o : Int) 
   simp only [ho, if_true]
   omega
 
+/-! ### Opens that return early, and re-opening the same node -/
+
+theorem cumsizeFrom_eq_cons (acc : Nat) (ss : List Nat) :
+    cumsizeFrom acc ss = acc :: (cumsizeFrom acc ss).tail := by
+  cases ss <;> simp [cumsizeFrom]
+
+theorem openLoop_ok (cancelAt : Option Nat) (i : Nat) (ss : List Nat) (bytes : Nat) (acc : List Nat)
+    (hc : ∀ c, cancelAt = some c → i + ss.length ≤ c) :
+    openLoop cancelAt i (ss.map some) bytes acc = .ok (acc ++ (cumsizeFrom bytes ss).tail) := by
+  induction ss generalizing i bytes acc with
+  | nil => simp [openLoop, cumsizeFrom]
+  | cons s ss ih =>
+    have hnc : cancelledAt cancelAt i = false := by
+      unfold cancelledAt
+      cases hca : cancelAt with
+      | none => rfl
+      | some c =>
+        have := hc c hca
+        simp only [List.length_cons] at this
+        simp only [decide_eq_false_iff_not]; omega
+    simp only [List.map_cons, openLoop, hnc, Bool.false_eq_true, if_false]
+    rw [ih (i + 1) (bytes + s) (acc ++ [bytes + s]) (by
+      intro c hca; have := hc c hca; simp only [List.length_cons] at this; omega)]
+    simp only [cumsizeFrom, List.tail_cons, List.append_assoc]
+    rw [cumsizeFrom_eq_cons (bytes + s) ss]
+    simp
+
+/-- an Open that is not cancelled before its last check and finds every id builds exactly the
+    prefix-sum table -/
+theorem openNode_ok (ss : List Nat) (cancelAt : Option Nat) (hc : ∀ c, cancelAt = some c → ss.length ≤ c) :
+    openNode (ss.map some) cancelAt = .ok (cumsize ss) := by
+  unfold openNode
+  rw [openLoop_ok cancelAt 0 ss 0 [0] (by intro c h; have := hc c h; omega)]
+  unfold cumsize
+  rw [cumsizeFrom_eq_cons 0 ss]
+  simp
+
+theorem openLoop_ok_inv (cancelAt : Option Nat) (i : Nat) (sizes : List (Option Nat)) (bytes : Nat)
+    (acc cs : List Nat) (h : openLoop cancelAt i sizes bytes acc = .ok cs) :
+    ∃ ss, sizes = ss.map some ∧ cs = acc ++ (cumsizeFrom bytes ss).tail := by
+  induction sizes generalizing i bytes acc with
+  | nil =>
+    simp only [openLoop] at h
+    injection h with h
+    exact ⟨[], rfl, by simp [cumsizeFrom, h]⟩
+  | cons sz rest ih =>
+    simp only [openLoop] at h
+    split at h
+    · cases h
+    · cases sz with
+      | none => cases h
+      | some s =>
+        obtain ⟨ss, h1, h2⟩ := ih _ _ _ h
+        refine ⟨s :: ss, by simp [h1], ?_⟩
+        rw [h2]
+        simp only [cumsizeFrom, List.tail_cons, List.append_assoc]
+        rw [cumsizeFrom_eq_cons (bytes + s) ss]
+        simp
+
+/-- whatever the cancellation point: if Open returns a handle at all, every id was found and the
+    handle's table is the complete prefix-sum table (never a partial one) -/
+theorem openNode_ok_inv (sizes : List (Option Nat)) (cancelAt : Option Nat) (cs : List Nat)
+    (h : openNode sizes cancelAt = .ok cs) : ∃ ss, sizes = ss.map some ∧ cs = cumsize ss := by
+  obtain ⟨ss, h1, h2⟩ := openLoop_ok_inv cancelAt 0 sizes 0 [0] cs h
+  refine ⟨ss, h1, ?_⟩
+  rw [h2]; unfold cumsize
+  rw [cumsizeFrom_eq_cons 0 ss]
+  simp
+
+/-- an Open whose context is already cancelled when it starts fails (for a non-empty file) -/
+theorem openNode_precancelled (sizes : List (Option Nat)) (hne : sizes ≠ []) :
+    openNode sizes (some 0) = .cancelled := by
+  cases sizes with
+  | nil => exact absurd rfl hne
+  | cons a as => simp [openNode, openLoop, cancelledAt]
+
+/-- the view an attempt has of the index is consistent with the file's blobs: an id is either not
+    found or found with the length of its blob -/
+def ViewOf {α : Type} : List (List α) → List (Option Nat) → Prop
+  | [], [] => True
+  | b :: bs, sz :: ss => (sz = none ∨ sz = some b.length) ∧ ViewOf bs ss
+  | _, _ => False
+
+theorem viewOf_all_some {α : Type} (blobs : List (List α)) (ss : List Nat)
+    (h : ViewOf blobs (ss.map some)) : ss = blobs.map List.length := by
+  induction blobs generalizing ss with
+  | nil =>
+    cases ss with
+    | nil => rfl
+    | cons a as => exact h.elim
+  | cons b bs ih =>
+    cases ss with
+    | nil => exact h.elim
+    | cons a as =>
+      simp only [ViewOf, List.map_cons] at h
+      rcases h.1 with h1 | h1
+      · cases h1
+      · injection h1 with h1
+        simp only [List.map_cons, h1, ih as h.2]
+
+/-- **re-open**. Take any sequence of Opens of the same node — cancelled before they start,
+    cancelled at any point of the loop, failing because an id is not (yet) in the index, or
+    succeeding. Every handle that any of these attempts returns reads exactly the requested range,
+    for every offset and size: earlier failed or interrupted Opens leave nothing behind. -/
+theorem reopen_read_range {α : Type} (blobs : List (List α))
+    (attempts : List (List (Option Nat) × Option Nat))
+    (hview : ∀ a ∈ attempts, ViewOf blobs a.1)
+    (cs : List Nat) (hcs : OpenRes.ok cs ∈ openSeq attempts) (off n : Nat) :
+    readWith cs (blobs.map some) off n = .ok ((blobs.flatten.drop off).take n) := by
+  simp only [openSeq, List.mem_map] at hcs
+  obtain ⟨a, ha, hopen⟩ := hcs
+  obtain ⟨ss, h1, h2⟩ := openNode_ok_inv a.1 a.2 cs hopen
+  have hv := hview a ha
+  rw [h1] at hv
+  have hss := viewOf_all_some blobs ss hv
+  have := read_range blobs off n
+  unfold readAt at this
+  have hm1 : (mkFile blobs).map (·.1) = blobs.map List.length := by
+    simp [mkFile, List.map_map, Function.comp_def]
+  have hm2 : (mkFile blobs).map (·.2) = blobs.map some := by
+    simp [mkFile, List.map_map, Function.comp_def]
+  rw [hm1, hm2] at this
+  rw [h2, hss]; exact this
+
 /-! ### Non-vacuity: concrete layouts with empty blobs, boundary offsets, reads past the end -/
 
 example : readAt (mkFile [[1, 2, 3], [], [4, 5], [], [6]]) 2 3 = .ok [3, 4, 5] := by decide
@@ -291,5 +415,10 @@ example : search 5 (fun i => decide ([0, 3, 3, 5, 5].getD i 0 > 3)) = 3 := by de
 /-- the transcription really distinguishes index size from blob length: a blob shorter than the
     index says makes `blob[offset:]` panic -/
 example : readAt [(5, some [1, 2]), (1, some [9])] 4 1 = .panic := by decide
+
+/-- interrupted at the third lookup, then re-opened: same table as a first Open -/
+example : openSeq [([some 3, some 0, some 2], some 0), ([some 3, some 0, some 2], some 2),
+    ([some 3, none, some 2], none), ([some 3, some 0, some 2], none), ([some 3, some 0, some 2], some 3)]
+    = [.cancelled, .cancelled, .notFound, .ok [0, 3, 3, 5], .ok [0, 3, 3, 5]] := by decide
 
 end Restic.Props.C46
